@@ -254,6 +254,14 @@ theorem cst_lexM_modulo : (c : Cst) → c.lexM.filter keep = (c.lex.map normLex)
     cases r <;>
     simp only [Cst.lexM, Cst.lex, recLex, List.map_cons, List.map_append, List.filter_cons, List.filter_append, this] <;>
     simp [normLex] <;> rfl
+  | .paren its _ => by
+    have := items_lexM_modulo its
+    simp only [Cst.lexM, Cst.lex, List.map_cons, List.map_append, List.filter_cons, List.filter_append, this]
+    simp [normLex]
+    rfl
+  | .app f cs _ a => by
+    simp only [Cst.lexM, Cst.lex, List.map_append, List.filter_append, cst_lexM_modulo f, cst_lexM_modulo a,
+      map_normLex_lexGC]
 theorem items_lexM_modulo : (its : Items) → its.lexM.filter keep = (its.lex.map normLex).filter keep
   | .nil => rfl
   | .cmt _ t rest => by
@@ -272,7 +280,9 @@ theorem items_lexM_modulo : (its : Items) → its.lexM.filter keep = (its.lex.ma
 end
 
 /-- COMMENTS SURVIVE EXACTLY ONCE, IN ORDER, IN PLACE. For every well-formed file of the fragment
-    in which no comment overtakes another (`File.orderOk`, see `cex_comment_overtakes`), the
+    (containers, parentheses, function calls) in which no comment overtakes another (`File.orderOk`:
+    in item sequences, see `cex_comment_overtakes`; between function and argument of a call,
+    `appOrderOk`, see `cex_call_comment_reordered`), the
     sequence of code tokens and comment tokens of the output — `lexOf` of the pieces — is the
     sequence of the input with every comment normalised, except that the comments of a binding
     written in front of `=` come out after it and those in front of `;` after it (`Items.lexM`). -/
@@ -325,6 +335,46 @@ theorem cex_comment_overtakes : ¬ frag_comments_preserved_full := by
 example : overtakeFile.flatten = "[ x\n /* b */ /* c */ y ]".toList := by decide
 example : overtakeFile.roundtrip = .ok "[\n  x /* c */\n  /* b */\n  y\n]".toList := by decide
 example : overtakeFile.orderOk = false := by decide
+
+/-- statement with the exclusion of the container fragment only (`orderOkSeq`: `orderOk` without the
+    condition on calls) — false -/
+def frag_comments_preserved_seq_only : Prop :=
+  ∀ (f : File) (s : Src), f.wf = true → f.noLeadingWs = true → f.orderOkSeq = true → f.parse = .ok s →
+    (lexOf s.rebuildP).filter keep = (f.items.lex.map normLex).filter keep
+
+/-- `f/* a */ /* b */ x`: between function and argument, `FunctionCall.from_cst` puts the comments
+    that start on the row the function ends on AND after its last byte into `function_after`, the
+    others into `argument.before`. The first comment touches the function (`start_byte >
+    function_node.end_byte` fails), so it stays behind while the second one is moved in front of it:
+    output `f /* b */ /* a */⏎x` — the two comments have changed places (NEW finding
+    `C03-call-comment-reordered`; `expressions/function/call.py: from_cst`, `inline_comment_nodes`). -/
+def callReorderFile : File :=
+  { items := .elem [] (.app (.leaf .ident "f".toList) [([], "/* a */".toList), (" ".toList, "/* b */".toList)]
+      " ".toList (.leaf .ident "x".toList)) .nil,
+    endGap := [] }
+
+theorem cex_call_comment_reordered : ¬ frag_comments_preserved_seq_only := by
+  intro h
+  have := h callReorderFile _ (by decide) (by decide) (by decide) rfl
+  revert this; decide
+
+example : callReorderFile.flatten = "f/* a */ /* b */ x".toList := by decide
+example : callReorderFile.roundtrip = .ok "f /* b */ /* a */\nx".toList := by decide
+example : callReorderFile.orderOk = false ∧ callReorderFile.orderOkSeq = true := by decide
+
+/-- comments inside parentheses and between function and argument; no comment overtakes another -/
+def callSample : File :=
+  { items := .elem []
+      (.app (.leaf .ident "f".toList) [(" ".toList, "/* a */".toList), ("\n  ".toList, "# b".toList)] "\n  ".toList
+        (.paren (.cmt " ".toList "/* p */".toList (.elem " ".toList (.leaf .ident "x".toList)
+          (.cmt " ".toList "# q".toList .nil))) "\n".toList)) .nil,
+    endGap := [] }
+
+example : callSample.flatten = "f /* a */\n  # b\n  ( /* p */ x # q\n)".toList := by decide
+example : callSample.wf = true ∧ callSample.noLeadingWs = true ∧ callSample.orderOk = true := by decide
+example : (match callSample.parse with
+    | .ok s => decide (lexOf s.rebuildP = callSample.items.lexM)
+    | _ => false) = true := by decide
 
 /-- a file with comments in every kind of gap of a binding; no comment overtakes another -/
 def fragSample : File :=
